@@ -29,7 +29,7 @@ FLAGS = {
     "stress-minor": ("--gc-stress-minor --gc-worker=1 --max-heap-size=32M", "stress"),
     "worker2": ("--gc-worker=2", None),
     "notlab": ("--disable-tlab --max-heap-size=64M", "small"),
-    "smallheap": ("--max-heap-size=32M --gc-young-size=1M --gc-worker=2", None),     # young size grows with the thread count, see _flags
+    "smallheap": ("--max-heap-size=32M --gc-young-size=1M --gc-worker=2", None),     # up to 2 worker threads; grows with the thread count, see _flags
 }
 AFFINITY = ("one", "two", "all")
 HOOKS = ("WAITLIST_ENQUEUE", "WAITLIST_WAKEUP", "WAITLIST_WAKEUP_EMPTY", "WAITLIST_WAKEUP_ALL", "BLOCK_CALLS", "JOIN_CALLS", "JOIN_WAITED", "PARK_SLOW",
@@ -37,18 +37,18 @@ HOOKS = ("WAITLIST_ENQUEUE", "WAITLIST_WAKEUP", "WAITLIST_WAKEUP_EMPTY", "WAITLI
 
 
 def _flags(level, case):
-    """DORA_FLAGS of a level for a case. The small-heap level gives the swiper collector a 1M young generation only for up to three
-    program threads: with more allocating threads than that, a thread that loses the race for the memory freed by a collection four
-    times in a row (every thread needs a 32K TLAB, collections requested concurrently are coalesced) ends in a spurious
-    `out of memory` trap although the live set is a few kilobytes -- a defect of the unchanged tree that is not a C09 matter
-    (proposed_fixes/c09-alloc-after-gc-race.*); such traps are reported under the one key c09:prog:trap-OOM:<gc>."""
+    """DORA_FLAGS of a level for a case. The small-heap level scales the young generation with the number of program threads,
+    because the unchanged runtime reports a spurious `out of memory` when many threads allocate into a small young generation
+    (a thread that loses the race for the memory freed by a collection four times in a row gives up, and collections requested
+    concurrently are coalesced; live set: a few kilobytes). That defect is not a C09 matter (see
+    proposed_fixes/c09-known-findings.json); such traps are reported under the single key c09:prog:trap-OOM:<gc>."""
     if level != "smallheap":
         return FLAGS[level][0]
     t = 1 + max(threadgen.threads_of(s, p) for s, p in case.invocations)
-    if t <= 4:
+    if t <= 3:
         return FLAGS[level][0]
     if t <= 7:
-        return "--max-heap-size=64M --gc-young-size=4M --gc-worker=2"
+        return "--max-heap-size=64M --gc-young-size=8M --gc-worker=2"
     return "--max-heap-size=128M --gc-young-size=16M --gc-worker=2"
 
 
